@@ -650,6 +650,82 @@ def check_foreign_constants(run, ix, rule='X-R13'):
                        'mp.mpf(clone.pi) follows clone.prec' % x))
 
 
+# --------------------------------------------------------------------------- X-R14
+def check_contextual_constants(run, ix, rule='X-R14'):
+    """X-R14 (regression of repair 2a94989, fourth C16 hunt; repair ad677f0).  Not every `_constant` is a mathematical
+    constant: eps is 2^(1-prec) of ITS context.  Evaluated at the receiving context's precision it becomes another
+    number (mp.eps handed to iv at 100 bits was 2^-99: `mp.eps in iv.mpf([2**-60, 1])` was False).  Decided: (a) every
+    constant whose function is a lambda that builds its value from its precision parameter directly (a raw tuple with
+    `prec` in it, no kernel call) is marked `<name>.contextual = True` in the function that creates it; (b) each of the
+    three sites that evaluate a constant of another context tests `x.contextual` in the same condition."""
+    CTXMP = 'mpmath/ctx_mp.py'
+    # (a)
+    found = 0
+    for rel in (CTXMP, CTXPY, CTXIV):
+        m = ix.module(rel)
+        for f in m.funcs.values():
+            for a in _walk_own(f.node):
+                if not (isinstance(a, ast.Assign) and isinstance(a.value, ast.Call) and
+                        norm(a.value.func).endswith('.constant') and a.value.args and
+                        isinstance(a.value.args[0], ast.Lambda)):
+                    continue
+                lam = a.value.args[0]
+                if not lam.args.args:
+                    continue
+                pname = lam.args.args[0].arg
+                uses_prec = any(isinstance(y, ast.Name) and y.id == pname for y in ast.walk(lam.body))
+                kernel = any(isinstance(y, ast.Call) for y in ast.walk(lam.body))
+                if not uses_prec or kernel:
+                    continue
+                if rel == CTXIV:
+                    continue        # interval constants are evaluated by their own context only
+                found += 1
+                tgt = norm(a.targets[0])
+                marked = any(isinstance(b, ast.Assign) and norm(b.targets[0]) == tgt + '.contextual' and
+                             isinstance(b.value, ast.Constant) and b.value.value is True
+                             for b in _walk_own(f.node))
+                if marked:
+                    run.ok(rule, '%s: %s is built from the precision itself and marked contextual' % (f.qualname, tgt))
+                else:
+                    run.fail(F(rule, rel, f.qualname, a,
+                               'the constant %s is a function of the precision of ITS context (no kernel call) and is not '
+                               'marked contextual: another context evaluates it at its own precision and gets another '
+                               'number (mp.eps in iv at 100 bits was 2^-99)' % tgt))
+    if not found:
+        raise AnalysisError('no precision-defined constant (eps) found')
+    # (b)
+    sites = [(CTXPY, '_mpf.mpf_convert_arg', 'x'), (CTXPY, 'PythonMPContext.convert', 'x'), (CTXIV, 'convert_mpf_', 'x')]
+    for rel, qn, x in sites:
+        f = ix.func(rel, qn)
+        hit = False
+        for i in _walk_own(f.node):
+            if not isinstance(i, ast.If):
+                continue
+            cs = [c for c in (i.test.values if isinstance(i.test, ast.BoolOp) and isinstance(i.test.op, ast.And)
+                              else [i.test])]
+            if not any(norm(c).replace(' ', '') == 'isinstance(%s,_constant)' % x for c in cs):
+                continue
+            if not any(isinstance(c, ast.Call) and norm(c.func) == '%s.func' % x for b in i.body for c in ast.walk(b)):
+                continue
+            hit = True
+            excl = False
+            for c in cs:
+                for y in ast.walk(c):
+                    if isinstance(y, ast.UnaryOp) and isinstance(y.op, ast.Not) and norm(y.operand) == '%s.contextual' % x:
+                        excl = True
+            if excl:
+                run.ok(rule, '%s leaves a contextual constant (eps) at its current value' % qn)
+            else:
+                run.fail(F(rule, rel, qn, i.test,
+                           'every constant of another context is evaluated at the receiver\'s precision, eps included: '
+                           'with mp.prec = 53 and iv.prec = 100, iv.mpf(mp.eps) is 2^-99 and iv.mpf(2**-52) == mp.eps is '
+                           'False'))
+        if not hit:
+            # X-R13 reports a site that does not evaluate foreign constants at all
+            run.ok(rule, '%s: no evaluation of foreign constants (see X-R13)' % qn)
+
+
+
 # --------------------------------------------------------------------------- X-R12
 def check_matrix_entry_conversion(run, ix):
     """X-R12.  The numbers a matrix holds belong to the matrix's context: an mpf computes with the precision of ITS
@@ -1066,6 +1142,8 @@ def run(run, ix, tier):
     check_borrowed_computation(run, ix)
     run.rule('X-R13', floor=3, desc='constants of another context are evaluated at the receiving context')
     check_foreign_constants(run, ix)
+    run.rule('X-R14', floor=4, desc='a constant defined by its context\'s precision (eps) keeps its value in another context')
+    check_contextual_constants(run, ix)
     run.rule('X-R12', floor=3, desc='matrix entries taken over without conversion come from a matrix of the same context')
     check_matrix_entry_conversion(run, ix)
     run.stats.update({'mutated_context_attributes': n2, 'allocation_sites': n4,
